@@ -141,7 +141,7 @@ CHECKS = {
               "deprecated spellings are entries of the keyword table (read from the crate at run time). Tie: 3 layouts per tree must parse to the same marker, the five evaluation entry points "
               "must agree, and evaluate() is compared with an independent Python reading, with the extracted sem508 and with the extracted model diagram."),
         design_ref='DESIGN.md section 7 / C01',
-        technique='Coq proof (range semantics, rewrite correctness, induction over syntax) + differential correspondence + independent-reading oracle'),
+        technique='Coq proof (range semantics, rewrite correctness, induction over syntax) + differential correspondence + independent-reading oracle + theorems over the operator / keyword / accessor tables regenerated from the source on every run'),
     'C17': dict(
         text=("Machine-checked proof (Coq), for every answer of the PEP 440 oracles: each uninterpretable operand/operator combination (two literals, two keys, version key "
               "against a key or non-version text, string key with ~=, extra with an ordering/containment operator) yields no expression and a warning of the matching kind; "
@@ -165,7 +165,7 @@ CHECKS = {
               "show_marker vs the crate's Display text character for character on every marker of the run; the crate's clauses recompiled; Display / try_to_string / contents() / serde text "
               "re-parsed to an == marker (FALSE and deprecated spellings: equivalent on final-release environments)."),
         design_ref='DESIGN.md section 7 / C05',
-        technique='Coq proof (path decomposition, range-to-specifier lemmas, invariant of the simplifier loops) + differential correspondence of to_dnf + executed text round trips'),
+        technique='Coq proof (path decomposition, range-to-specifier lemmas, invariant of the simplifier loops) + differential correspondence of to_dnf + executed text round trips + theorems over the Display / negate tables regenerated from the source on every run'),
     'C06': dict(
         text=("Machine-checked proof (Coq), for every input text and every answer of the dependencies (Unicode classes, PEP 440 syntax, URL parser, environment): "
               "each parsing entry point of the model (requirement incl. both URL types and both feature configurations, marker tree, marker expression, extras list, "
@@ -188,7 +188,7 @@ CHECKS = {
               "accepted, components equal to independent expectations (PEP 503 name, VersionSpecifier::from_str per piece, Url::parse, MarkerTree::from_str of a canonical marker "
               "text), all layouts equal, and the extracted parser on every text. `===` inside markers is the open finding F7b."),
         design_ref='DESIGN.md section 7 / C07',
-        technique='Coq proof (one consumption lemma per grammar component, composed through the driver) + differential correspondence on random derivations x white-space layouts'),
+        technique='Coq proof (one consumption lemma per grammar component, composed through the driver) + differential correspondence on random derivations x white-space layouts + theorems over the keyword and operator tables regenerated from the source on every run'),
     'C08': dict(
         text=("Machine-checked proof (Coq): Display of a requirement is a derivation of the grammar in a particular layout, so (corollary of the C07 theorem) it parses back to a "
               "requirement with the same name, extras, specifier list / URL and marker, and rendering that again gives the same text - provided the component round trips hold: "
@@ -218,7 +218,7 @@ CHECKS = {
               "(C08 machinery). Path-to-URL conversion (filesystem, percent-decoding) is an oracle. Tie: schemes x tails, paths, names x extensions (+ negative controls) x suffixes "
               "through both requirement types under both feature sets, and through UnnamedRequirement (given(), extras, marker, Display round trip) under the extension."),
         design_ref='DESIGN.md section 7 / C19',
-        technique='Coq proof (trace of the driver on each input class; looks_like_unnamed / looks_like_archive lemmas) + differential correspondence under both feature configurations'),
+        technique='Coq proof (trace of the driver on each input class; looks_like_unnamed / looks_like_archive lemmas) + differential correspondence under both feature configurations + theorems over the archive-extension lists regenerated from the source on every run'),
 }
 
 PENDING = {}
